@@ -7,6 +7,14 @@ import json, os, subprocess
 ROOT = os.path.dirname(os.path.dirname(os.path.abspath(__file__)))
 
 CHECKS = {
+    "C11": dict(cat="exploration", sec="5 C11",
+                tech="runtime monitor: reference bit-set/slot model vs a full node's StatusList2021 issuer, served lists and verifier verdicts; concurrent issuance + page roll-over by ageing; harness-served external lists; race detector",
+                text="A complete in-process node issues credentials with status entries for 3-4 issuers sequentially, from 8-32 goroutines and across page roll-overs (page counter aged by SQL to 3 before the end, "
+                     "twice per issuer), revokes random subsets concurrently with issuance, serves its lists and verifies. Reference model: set of slots handed out (pairwise distinct, in range, on the issuer's own list) "
+                     "and per-list bit set = exactly the revoked slots. Every served list must verify at the node's verifier, carry the named id and purpose, expire > 1 h ahead, equal the model bits and never clear a bit; "
+                     "revoked credentials fail and unrevoked ones verify after every step, after forced re-signing and after a restart on the same data directory. Verifier side: harness-owned did:jwk issuer + list server: "
+                     "refresh after ageing the cache, list with foreign id, wrong purpose, broken signature (bit must not be honoured).",
+                note="SQLite single connection serialises DB transactions (row-lock behaviour of other engines not exercised); did:nuts network revocations and their forgeries not generated; real list expiry cannot be reached without waiting (re-signing observed through aged bookkeeping only)."),
     "C01": dict(cat="exploration", sec="5 C01",
                 tech="runtime monitor: structure-aware mutation of node-issued VCs/VPs submitted to the real verifier API; reject-or-equivalent oracle; reference-verdict grid (time, revocation, trust, deactivation, signer)",
                 text="A complete in-process node issues credentials (ldp_vc, jwt_vc, with status list / expiry) and builds presentations (ldp_vp, jwt_vp); every artefact must verify (round trip). "
